@@ -198,7 +198,66 @@ pub enum Focus {
     Cancel,
 }
 
+/// Template family: 2-4 operations of one shareable kind queued on *one* descriptor (some through a
+/// `dup`), a random subset let go in a random way (cancel / token / key drop) with polls in between,
+/// then data for the survivors. Exercises the per-descriptor queues and registrations of the polling
+/// driver and "neighbours on the same descriptor" of the cancellation contract.
+fn generate_shared(rng: &mut Rng, driver: &'static str, kinds: &[K]) -> Option<Program> {
+    let shareable: Vec<K> = kinds.iter().copied().filter(|k| k.shareable()).collect();
+    if shareable.is_empty() {
+        return None;
+    }
+    let kind = *rng.pick(&shareable);
+    let n = rng.range(2, 4);
+    let ops: Vec<OpSpec> = (0..n)
+        .map(|i| OpSpec {
+            kind,
+            size: *rng.pick(&[1usize, 7, 16, 64]),
+            share: (i > 0).then_some(0),
+            dup: i > 0 && rng.chance(1, 4),
+        })
+        .collect();
+    let mut acts: Vec<Act> = (0..n).map(Act::Push).collect();
+    if rng.chance(1, 3) {
+        acts.push(Act::Poll(0));
+    }
+    let mut order: Vec<usize> = (0..n).collect();
+    for i in (1..n).rev() {
+        order.swap(i, rng.below(i + 1));
+    }
+    let victims = rng.range(1, n - 1).max(1);
+    for &i in order.iter().take(victims) {
+        acts.push(match rng.below(4) {
+            0 | 1 => Act::Cancel(i),
+            2 => Act::Token(i),
+            _ => Act::DropKey(i),
+        });
+        for _ in 0..rng.below(3) {
+            acts.push(Act::Poll(*rng.pick(&[0u64, 0, 1])));
+        }
+    }
+    for &i in order.iter().skip(victims) {
+        acts.push(Act::Ready(i, rng.range(1, 20)));
+        acts.push(Act::Poll(*rng.pick(&[0u64, 1, 20])));
+        if rng.chance(1, 2) {
+            acts.push(Act::Pop(i));
+        }
+    }
+    Some(Program {
+        driver,
+        cap: *rng.pick(&[1u32, 2, 8, 1024]),
+        pool_limit: 2,
+        ops,
+        acts,
+    })
+}
+
 pub fn generate(rng: &mut Rng, focus: Focus, driver: &'static str, kinds: &[K]) -> Program {
+    if rng.chance(1, 6)
+        && let Some(p) = generate_shared(rng, driver, kinds)
+    {
+        return p;
+    }
     let cap = *rng.pick(&[1u32, 2, 2, 4, 8, 1024]);
     let nops = match focus {
         Focus::Completion => rng.range(2, 12),
